@@ -14,6 +14,7 @@ import (
 
 // Finish runs phase 2: translates all deferred formulas.
 func (t *FnTrans) Finish() {
+	t.phase2 = true
 	// goals first: their skolem constants become instantiation candidates
 	for _, o := range t.obls {
 		g, err := t.Formula(o.F, true)
@@ -24,9 +25,9 @@ func (t *FnTrans) Finish() {
 		}
 		o.Goal = g
 	}
-	t.assumpTerms = make([]string, len(t.assumps))
-	for i := range t.assumps {
-		a := &t.assumps[i]
+	t.assumpTerms = nil
+	for i := 0; i < len(t.assumps); i++ { // translating a clause may add (global) assumptions
+		a := t.assumps[i]
 		var term string
 		var err error
 		if a.F.Lazy != nil {
@@ -38,7 +39,7 @@ func (t *FnTrans) Finish() {
 			t.contractErrors = append(t.contractErrors, err.Error())
 			term = "true"
 		}
-		t.assumpTerms[i] = implies(a.Guard, term)
+		t.assumpTerms = append(t.assumpTerms, implies(a.Guard, term))
 	}
 }
 
@@ -69,7 +70,10 @@ func (t *FnTrans) Query(o *Obl, getValues []string) string {
 		b.WriteString(d)
 		b.WriteByte('\n')
 	}
-	for i := 0; i < o.NAssume && i < len(t.assumpTerms); i++ {
+	for i := 0; i < len(t.assumpTerms); i++ {
+		if i >= o.NAssume && !t.assumps[i].Global {
+			continue
+		}
 		if t.assumpTerms[i] == "true" {
 			continue
 		}
